@@ -126,12 +126,12 @@ reg(
 )
 reg(
     "C12",
-    level="other",
+    level="proof",
     technique="contract-based deductive verification: sidecar contracts on the real functions; VCs generated from the Python AST of /repo (pyvc symbolic executor, loop invariants) discharged by z3 (cvc5 cross-check in thorough); Lean 4 + Mathlib bridge lemmas; bounded run-time enforcement of the same contracts as stand-in for undecided / floating-point clauses",
-    text="Deductive: bounded arm (random DAGs with multi-output ops vs an independent edge-level DFS); the BFS loop invariant is not built Obligations are regenerated from /repo's current AST on every run; the level is 'proof' only when every generated obligation is discharged (otherwise the evidence says 'other' and lists the undecided ones). Bounded stand-in (never counted as proved): seeded campaign enforcing the executable rendering of the contract on the real code with an independent oracle; floating-point clauses are decided only there.",
-    note="no deductive obligation for the traversal itself; floats as reals; CPython set/dict semantics; pyvc soundness; Lean kernel + Mathlib",
+    text="Deductive: _get_descendant_accumulate_grads verified against the reachability spec (least set containing the non-excluded roots, closed under non-excluded (child, output index) edges): while-loop and inner for-loop invariants, least-fixed-point induction instantiated at the final visited set, result = AccumulateGrad nodes reached; _get_leaf_tensors maps roots/excluded tensors to (grad_fn, output_nr) edges and the reached accumulators to their .variable; plumbing contract of the defaults: backward(inputs=None) discovers from exactly the given tensors with nothing excluded and accumulates into exactly the discovered set; mtl_backward discovers shared parameters from the features (nothing excluded) and task parameters from each loss with exactly the features excluded, and rejects overlapping sets with ValueError. Obligations are regenerated from /repo's current AST on every run; the level is 'proof' only when every generated obligation is discharged (otherwise the evidence says 'other' and lists the undecided ones). Bounded stand-in (never counted as proved): seeded campaign enforcing the executable rendering of the contract on the real code with an independent oracle; floating-point clauses are decided only there.",
+    note="termination of the traversal is not proved; the deque is abstracted to the set of queued nodes; the autograd graph (next_functions, AccumulateGrad.variable, grad_fn/output_nr) is PyTorch's [T], exercised by the bounded arm (random DAGs with multi-output ops vs an independent edge-level DFS); floats as reals; CPython set/dict semantics; pyvc soundness; Lean kernel + Mathlib",
     design_ref="DESIGN.md §3 C12",
-    explanation="bounded arm (random DAGs with multi-output ops vs an independent edge-level DFS); the BFS loop invariant is not built",
+    explanation="_get_descendant_accumulate_grads verified against the reachability spec (least set containing the non-excluded roots, closed under non-excluded (child, output index) edges): while-loop and inner for-loop invariants, least-fixed-point induction instantiated at the final visited set, result = AccumulateGrad nodes reached; _get_leaf_tensors maps roots/excluded tensors to (grad_fn, output_nr) edges and the reached accumulators to their .variable; plumbing contract of the defaults: backward(inputs=None) discovers from exactly the given tensors with nothing excluded and accumulates into exactly the discovered set; mtl_backward discovers shared parameters from the features (nothing excluded) and task parameters from each loss with exactly the features excluded, and rejects overlapping sets with ValueError.",
 )
 reg(
     "C13",
@@ -146,10 +146,10 @@ reg(
     "C14",
     level="proof",
     technique="contract-based deductive verification: sidecar contracts on the real functions; VCs generated from the Python AST of /repo (pyvc symbolic executor, loop invariants) discharged by z3 (cvc5 cross-check in thorough); Lean 4 + Mathlib bridge lemmas; bounded run-time enforcement of the same contracts as stand-in for undecided / floating-point clauses",
-    text="Deductive: set-level contracts, unbounded in the key universe: Composition.__init__ raises iff key sets differ; Conjunction.__init__ (1-3 members) raises iff required sets differ or outputs overlap (cardinality argument proved via inclusion-exclusion); Transform.__call__ raises iff keys differ, before _compute; Select; declared keys of every transform; _union type = least common ancestor for all class pairs [E]; immutability as class-attribute obligations; Gradients shape rule. Obligations are regenerated from /repo's current AST on every run; the level is 'proof' only when every generated obligation is discharged (otherwise the evidence says 'other' and lists the undecided ones). Bounded stand-in (never counted as proved): seeded campaign enforcing the executable rendering of the contract on the real code with an independent oracle; floating-point clauses are decided only there.",
-    note="bounded in the number of conjunction members (<= 3); associativity/commutativity and the shape grid of the other dictionary types: exhaustive bounded arm (terms over 3 keys up to depth 3); floats as reals; CPython set/dict semantics; pyvc soundness; Lean kernel + Mathlib",
+    text="Deductive: set-level contracts, unbounded in the key universe: Composition.__init__ raises iff key sets differ; Conjunction.__init__ (1-3 members) raises iff required sets differ or outputs overlap (cardinality argument proved via inclusion-exclusion); Transform.__call__ raises iff keys differ, before _compute; Select; declared keys of every transform; _union type = least common ancestor for all class pairs [E]; immutability as class-attribute obligations; shape rules of Gradients / Jacobians / JacobianMatrices / GradientVectors (raise iff a value contradicts the rule, symbolic sizes); Stack.__init__ (1-3 members) raises iff required sets differ, output = union. Obligations are regenerated from /repo's current AST on every run; the level is 'proof' only when every generated obligation is discharged (otherwise the evidence says 'other' and lists the undecided ones). Bounded stand-in (never counted as proved): seeded campaign enforcing the executable rendering of the contract on the real code with an independent oracle; floating-point clauses are decided only there.",
+    note="bounded in the number of conjunction / stack members (<= 3); associativity/commutativity: exhaustive bounded arm (terms over 3 keys up to depth 3); values of the wrong rank are covered structurally only; floats as reals; CPython set/dict semantics; pyvc soundness; Lean kernel + Mathlib",
     design_ref="DESIGN.md §3 C14",
-    explanation="set-level contracts, unbounded in the key universe: Composition.__init__ raises iff key sets differ; Conjunction.__init__ (1-3 members) raises iff required sets differ or outputs overlap (cardinality argument proved via inclusion-exclusion); Transform.__call__ raises iff keys differ, before _compute; Select; declared keys of every transform; _union type = least common ancestor for all class pairs [E]; immutability as class-attribute obligations; Gradients shape rule.",
+    explanation="set-level contracts, unbounded in the key universe: Composition.__init__ raises iff key sets differ; Conjunction.__init__ (1-3 members) raises iff required sets differ or outputs overlap (cardinality argument proved via inclusion-exclusion); Transform.__call__ raises iff keys differ, before _compute; Select; declared keys of every transform; _union type = least common ancestor for all class pairs [E]; immutability as class-attribute obligations; shape rules of Gradients / Jacobians / JacobianMatrices / GradientVectors (raise iff a value contradicts the rule, symbolic sizes); Stack.__init__ (1-3 members) raises iff required sets differ, output = union.",
 )
 reg(
     "C15",
@@ -200,8 +200,8 @@ reg(
     "C20",
     level="proof",
     technique="contract-based deductive verification: sidecar contracts on the real functions; VCs generated from the Python AST of /repo (pyvc symbolic executor, loop invariants) discharged by z3 (cvc5 cross-check in thorough); Lean 4 + Mathlib bridge lemmas; bounded run-time enforcement of the same contracts as stand-in for undecided / floating-point clauses",
-    text="Deductive: backward() on ARBITRARY arguments: on every path ending in a raise no .grad has been written (heap at the raise = entry heap); every listed invalid argument is rejected with ValueError; Accumulate checks all keys before the first store. Obligations are regenerated from /repo's current AST on every run; the level is 'proof' only when every generated obligation is discharged (otherwise the evidence says 'other' and lists the undecided ones). Bounded stand-in (never counted as proved): seeded campaign enforcing the executable rendering of the contract on the real code with an independent oracle; floating-point clauses are decided only there.",
-    note="mtl_backward's up-front checks are covered by the bounded arm (every invalid-argument kind x position); floats as reals; CPython set/dict semantics; pyvc soundness; Lean kernel + Mathlib",
+    text="Deductive: backward() on ARBITRARY arguments: on every path ending in a raise no .grad has been written (heap at the raise = entry heap); every listed invalid argument is rejected with ValueError; Accumulate checks all keys before the first store; mtl_backward (t = 1 quick, t = 2 thorough) rejects every listed invalid call with ValueError before any differentiation and with the entry heap intact. Obligations are regenerated from /repo's current AST on every run; the level is 'proof' only when every generated obligation is discharged (otherwise the evidence says 'other' and lists the undecided ones). Bounded stand-in (never counted as proved): seeded campaign enforcing the executable rendering of the contract on the real code with an independent oracle; floating-point clauses are decided only there.",
+    note="mtl_backward's rejection contract is bounded in the number of tasks (1, 2); every invalid-argument kind x position also in the bounded arm; floats as reals; CPython set/dict semantics; pyvc soundness; Lean kernel + Mathlib",
     design_ref="DESIGN.md §3 C20",
-    explanation="backward() on ARBITRARY arguments: on every path ending in a raise no .grad has been written (heap at the raise = entry heap); every listed invalid argument is rejected with ValueError; Accumulate checks all keys before the first store.",
+    explanation="backward() on ARBITRARY arguments: on every path ending in a raise no .grad has been written (heap at the raise = entry heap); every listed invalid argument is rejected with ValueError; Accumulate checks all keys before the first store; mtl_backward (t = 1 quick, t = 2 thorough) rejects every listed invalid call with ValueError before any differentiation and with the entry heap intact.",
 )
